@@ -127,6 +127,19 @@ class IdentityCommunity(Community):
                 return credential.metadata
         return None
 
+    @staticmethod
+    def _same_metadata(presented: dict, registered: dict) -> bool:
+        """
+        Whether two metadata dictionaries serialize to the same JSON text.
+
+        Plain equality is too lenient: in Python True == 1 == 1.0, but they are written as true, 1 and 1.0.
+        Metadata that cannot be serialized matches nothing.
+        """
+        try:
+            return json.dumps(presented, sort_keys=True) == json.dumps(registered, sort_keys=True)
+        except (TypeError, ValueError):
+            return False
+
     def should_sign(self,  # noqa: PLR0911
                     pseudonym: PseudonymManager,
                     metadata: Metadata) -> bool:
@@ -154,11 +167,10 @@ class IdentityCommunity(Community):
         if transaction["name"] != self.known_attestation_hashes[attribute_hash][0]:
             self.logger.debug("Not signing %s, name does not match!", str(metadata))
             return False
-        # Compare the serialized forms: in Python True == 1 == 1.0, which are different values in JSON.
         if (self.known_attestation_hashes[attribute_hash][3] is not None
-                and (json.dumps({k: v for k, v in transaction.items() if k not in ["name", "date", "schema"]},
-                                sort_keys=True)
-                     != json.dumps(self.known_attestation_hashes[attribute_hash][3], sort_keys=True))):
+                and not self._same_metadata({k: v for k, v in transaction.items()
+                                             if k not in ["name", "date", "schema"]},
+                                            self.known_attestation_hashes[attribute_hash][3])):
             self.logger.debug("Not signing %s, metadata does not match!", str(metadata))
             return False
         if metadata.get_hash() in self.attested_metadata:
